@@ -68,6 +68,7 @@ type CaseResult struct {
 	NNondet    int
 	ObsPred    map[string][]ObsVal
 	Portfolio  PortfolioStats
+	Cancelled  bool
 }
 
 type ObsVal struct {
@@ -405,6 +406,7 @@ func main() {
 	timeout := flag.Int("timeout", 0, "per-query solver timeout in ms")
 	replayFile := flag.String("replay", "", "replay a counterexample file natively")
 	verbose := flag.Bool("v", false, "verbose")
+	noFailFast := flag.Bool("nofailfast", false, "keep running all cases after a violation")
 	noNative := flag.Bool("nonative", false, "skip native replays (debugging only; violations are then unconfirmed)")
 	cpuprof := flag.String("cpuprofile", "", "write cpu profile")
 	flag.Parse()
@@ -535,7 +537,18 @@ func main() {
 			defer wg.Done()
 			sem <- struct{}{}
 			defer func() { <-sem }()
+			if cancelAll.Load() {
+				results[i] = &CaseResult{Case: cases[i], Cancelled: true, Reached: map[string]bool{}}
+				return
+			}
 			r := runCase(ld, cases[i], known, tmo, defSolver)
+			if strings.HasPrefix(r.Unsupported, "cancelled") {
+				r.Cancelled = true
+				r.Unsupported = ""
+			}
+			if len(r.Violations) > 0 && !*noFailFast {
+				cancelAll.Store(true)
+			}
 			results[i] = r
 			if *verbose {
 				mu.Lock()
@@ -571,7 +584,11 @@ func main() {
 		witnessBudget = 24
 	}
 	seenViol := map[string]bool{}
+	nCancelled := 0
 	for _, r := range results {
+		if r.Cancelled {
+			nCancelled++
+		}
 		totStates += r.States
 		totInstr += r.Instrs
 		totVC += r.NVC
@@ -776,7 +793,7 @@ func main() {
 			"functions_encoded":             fl,
 			"queries": map[string]interface{}{
 				"solver_queries": totQ, "vcs": totVC, "vcs_unsat": totUnsat, "vcs_folded_constant": totConst,
-				"violations_confirmed": nViol, "known_findings_seen": kids, "undecided": nUndec, "unsupported_cases": nUnsup,
+				"violations_confirmed": nViol, "known_findings_seen": kids, "undecided": nUndec, "unsupported_cases": nUnsup, "cases_cancelled_after_violation": nCancelled,
 			},
 			"solver":               defSolver,
 			"solver_time_s":        totSolver,
